@@ -5,16 +5,19 @@ def spec(th, seed):
     units = []
     for p in range(1, 8):
         units.append(U('C01_vec.part%d' % p, 'mon/C01_vec.cpp', 'plain', defs=['-DPART=%d' % p]))
+    # gtx/component_wise (anchored by C01): component-wise conversions against the vec1 call, reductions against the fold of the scalar operation
+    units.append(U('C01_compwise', 'mon/C01_compwise.cpp', 'plain'))
     if th:
+        units.append(U('C01_compwise.clang', 'mon/C01_compwise.cpp', 'clang'))
         for p in (2, 4, 5):
             units.append(U('C01_vec.part%d.clang' % p, 'mon/C01_vec.cpp', 'clang', defs=['-DPART=%d' % p], scale=0.3))
     return {
         'units': units,
         'parallel_units': 4,
-        'rule': 'for every catalogued function/operator and every vector length 1-4 (x qualifiers highp/mediump/lowp for float, subsets for other types) the vector overload is evaluated on 4-component tuples taken from the special-value lattice (all rotations against partners) and from random streams (bit patterns, log-uniform magnitudes, small halves/ties, equal-operand forcing) and every component is compared with the scalar overload of the same glm function (builtin operator for operators/relationals); scalar and vec1 arguments are additionally compared with the explicitly broadcast vector. Parts: 1 unary float functions, 2 n-ary float functions, 3 integer/relational functions, 4 float/double operators, 5 int/uint operators, 6 sized-integer operators, 7 matrix abs/mix/equal',
+        'rule': 'for every catalogued function/operator and every vector length 1-4 (x qualifiers highp/mediump/lowp for float, subsets for other types) the vector overload is evaluated on 4-component tuples taken from the special-value lattice (all rotations against partners) and from random streams (bit patterns, log-uniform magnitudes, small halves/ties, equal-operand forcing) and every component is compared with the scalar overload of the same glm function (builtin operator for operators/relationals); scalar and vec1 arguments are additionally compared with the explicitly broadcast vector. Parts: 1 unary float functions, 2 n-ary float functions, 3 integer/relational functions, 4 float/double operators, 5 int/uint operators, 6 sized-integer operators, 7 matrix abs/mix/equal; plus mon/C01_compwise.cpp: gtx compNormalize/compScale per component against the vec1 call (all 8/16-bit values, lattice+random 32-bit) and compAdd/compMul/compMin/compMax/fcompMin/fcompMax against the fold of the scalar operation',
         'assumptions': [
             'oracle = the scalar overload of the same glm function (the statement itself relates the two overloads); EXACT (bitwise, NaN==NaN) except: mix/smoothstep/mod/fma within k*u*S of each other (k<=16), fmin/fmax/fclamp may return either zero for (+0,-0), lowp float inversesqrt within 2^-8 relative of 1/sqrt(x)',
             'domains: no NaN for min/max/clamp/step/sign (GLSL undefined), quiet NaNs only elsewhere, divisor != 0 and not MIN/-1, shift counts < width, signed 32/64-bit operands small enough not to overflow, edge0<edge1 for smoothstep, min<=max for clamp, |x|<2^31 for roundEven/iround/uround, fma operands bounded so that a*b cannot overflow',
-            'not instantiable on this tree (compile errors inside glm, recorded, not judged): vec3 +=/-=/<<= vec1 and vec4 %= vec1 and the binary operators built on them; gtx/extended_min_max and ext/vector_common 3/4-argument min/max are ambiguous when both are included, only the ext versions are monitored',
+            'not instantiable on this tree (compile errors inside glm, recorded, not judged): vec3 +=/-=/<<= vec1 and vec4 %= vec1 and the binary operators built on them; gtx/extended_min_max and ext/vector_common 3/4-argument min/max are ambiguous when both are included, only the ext versions are monitored (the gtx definitions cannot be called: reach report, tools/reach.py)',
         ],
     }
